@@ -57,12 +57,12 @@ def run(prop, tier, seed, t0, replay):
         e = dict(env)
         e["TSAN_OPTIONS"] = "halt_on_error=0:report_signal_unsafe=0:log_path=%s/tsan" % sc
         os.makedirs(sc, exist_ok=True)
-        p = subprocess.run([binp, vchild, os.path.join(sc, "w"), str(per), str(seed * 1000 + i), "16"], stdout=subprocess.PIPE,
-                           stderr=subprocess.PIPE, env=e, text=True, errors="replace")
+        rc_, out_, err_ = core.run_timed([binp, vchild, os.path.join(sc, "w"), str(per), str(seed * 1000 + i), "16"], e,
+                                        900 if tier == "quick" else 3600)
         logs = ""
         for f in glob.glob(os.path.join(sc, "tsan*")):
             logs += open(f, errors="replace").read()
-        return p.returncode, p.stdout, p.stderr + logs
+        return rc_, out_, err_ + logs
     with ThreadPoolExecutor(nproc) as ex:
         outs = list(ex.map(work, range(nproc)))
     shutil.rmtree(scratch_root, ignore_errors=True)
@@ -93,13 +93,16 @@ def run(prop, tier, seed, t0, replay):
                 hashes.add(f[1])
             elif f[0] == "W":
                 obs["watchdogs"] += 1
-        if rc not in (0, 1, 3) and not lib:
+        if rc == 124:
+            obs["harness_timeouts"] = obs.get("harness_timeouts", 0) + 1
+        elif rc not in (0, 1, 3) and not lib:
             if "ThreadSanitizer" not in err:
                 viols.append(("C20", "C20/mt/crash", "engine died rc=%d: %s" % (rc, err[-500:]), {"seed": seed}, [err[-2000:]]))
     obs["distinct_interleavings"] = len(hashes)
     total = {"evaluations": obs["children"], "obs": obs, "inconclusive": 0, "nontrivial_sigs": hashes,
              "samples": [{"scenario": "0: reader thread + writer thread on one child (stdin up to 1 MiB echoed to stdout), 2-8 children at once",
                           "check": "stdout = child's own position-coded bytes followed by the echo of what this handle wrote; exit code unique per child"},
+                         {"scenario": "3: as 1/2 but the output is collected with reproc_drain and verifying sinks"},
                          {"scenario": "1/2: 2-16 threads each doing new/start/write/close/read out/read err/wait/destroy, starts released by a barrier",
                           "check": "child's descriptor table as found at exec = {0,1,2, one pipe}; EOF on its own stdin while siblings are alive"}]}
     rule = ("repetitions of three threaded scenarios under ThreadSanitizer with seeded sched_yield/usleep(0-200us) delays injected in the "
